@@ -68,8 +68,8 @@ def mode_cv(
         return np.array(len(freqs) * [Kb])
     else:
         x = freqs / Kb / temp
-        expVal = np.exp(x)
-        return Kb * x**2 * expVal / (expVal - 1.0) ** 2
+        expVal = np.exp(-x)
+        return Kb * x**2 * expVal / (1.0 - expVal) ** 2
 
 
 def mode_F(
@@ -123,10 +123,8 @@ def mode_S(
     if classical:
         return Kb - Kb * np.log(freqs / (Kb * temp))
     else:
-        val = freqs / (2 * Kb * temp)
-        return 1 / (2 * temp) * freqs * np.cosh(val) / np.sinh(val) - Kb * np.log(
-            2 * np.sinh(val)
-        )
+        expVal = np.exp((-freqs) / (Kb * temp))
+        return freqs / temp * expVal / (1.0 - expVal) - Kb * np.log(1.0 - expVal)
 
 
 def mode_ZPE(
